@@ -23,6 +23,7 @@ class N(HasTraits):
     child = Instance("N")
     children = List(Instance("N"))
     mapping = Dict(Str, Instance("N"))
+    entries = Dict(Str, Instance("N"))         # a Dict trait whose NAME ends in characters of the suffix '_items'
     group = Set(Instance("N"))
     w_ = Int                      # wildcard: names w_... are resolved on first use
     anybox = Instance(HasTraits)              # links that also admit objects WITHOUT the observed traits (hook-up fails)
@@ -240,6 +241,8 @@ def reachable(root, expr):
                 nxt.extend(o.children)
             elif st == "mapping":
                 nxt.extend(o.mapping.values())
+            elif st == "entries":
+                nxt.extend(o.entries.values())
             elif st == "group":
                 nxt.extend(o.group)
             elif st in ("anybox", "tchild", "dchild"):
@@ -282,6 +285,11 @@ def all_nodes(root, pool):
                 add(c)
             for c in o.mapping.values():
                 add(c)
+            for c in o.entries.values():
+                add(c)
+            for n_, v_ in list(o.__dict__.items()):
+                if n_.startswith("tv_added") and isinstance(v_, N):
+                    add(v_)
             for c in o.group:
                 add(c)
     add(root)
